@@ -175,6 +175,17 @@ pub fn profile_weights(name: &str) -> Weights {
             lost: 4,
             ..base
         },
+        "prune" => Weights {
+            open: 4,
+            close: 4,
+            cancel: 5,
+            end_fail: 6,
+            lost: 6,
+            prune: 8,
+            flush: 2,
+            connect: 8,
+            ..base
+        },
         "journal" => Weights {
             open: 4,
             close: 4,
@@ -1194,8 +1205,20 @@ pub struct SimRun {
     pub steps: u32,
 }
 
+#[derive(Debug, Clone, Copy, PartialEq, Eq)]
+pub enum Mode {
+    /// history, drain without and with capable workers, final monitors
+    Normal,
+    /// history, then the RESTORE phase (every journal prefix is restored and compared)
+    Restore,
+}
+
 /// Execute one case completely (history + drain + final monitors).
 pub fn execute(case: &SimCase) -> SimRun {
+    execute_mode(case, Mode::Normal)
+}
+
+pub fn execute_mode(case: &SimCase, mode: Mode) -> SimRun {
     install_panic_hook();
     PANICS.with(|p| p.borrow_mut().clear());
     let obs_out: Rc<RefCell<Option<Rc<RefCell<Obs>>>>> = Rc::new(RefCell::new(None));
@@ -1231,6 +1254,12 @@ pub fn execute(case: &SimCase) -> SimRun {
                 if panicked {
                     return;
                 }
+            }
+            if mode == Mode::Restore {
+                let seed = crate::common::hash_str(&sim.obs.borrow().trace.join("|"));
+                crate::restore::restore_phase(&mut sim, seed).await;
+                *steps2.borrow_mut() = sim.world.step_no();
+                return;
             }
             let q1 = sim.drain(false).await;
             *quiescent2.borrow_mut() = q1;
